@@ -92,20 +92,33 @@ out:
 
 /* ---------------------------------------------------------------- ms */
 static void mode_ms(void){
-  vc_rng r; vc_case_rng(&r,5); int err; int Fs=vc_chance(&r,1,2)?48000:VC_PICK(&r,vk_rates); int fam=vc_chance(&r,1,2)?1:255; int ch=fam==1?vc_range(&r,1,8):vc_range(&r,1,6); int S,C; unsigned char map[255]; OpusMSEncoder *me=opus_multistream_surround_encoder_create(Fs,ch,fam,&S,&C,map,OPUS_APPLICATION_AUDIO,&err); if(!me){ vc_viol("ms:create","%d",err); return; } OpusMSDecoder *md=opus_multistream_decoder_create(Fs,ch,S,C,map,&err);
-  opus_multistream_encoder_ctl(me,OPUS_SET_BITRATE(64000*ch)); int fs=vk_frame_samples(Fs,vc_range(&r,2,4)); long n=(long)(1.6*Fs)/fs*fs; float *in=(float*)malloc(sizeof(float)*n*ch), *out=(float*)calloc(n*ch,sizeof(float)); unsigned char *pk=(unsigned char*)malloc(12000);
-  /* a distinct tone (below the coded band of every rate, incl. the LFE channel's 0-120 Hz? no: LFE is exempt) in each channel, distinct levels */
-  double f[8], a[8]; int lfe=(fam==1&&ch>=6)?ch-1:-1; /* Vorbis channel order puts the LFE last for 5.1, 6.1 and 7.1 */ for(int c=0;c<ch;c++){ f[c]=300+170*c+vc_unit(&r)*40; a[c]=0.1+0.05*c; if(c==lfe) f[c]=60; } for(long i=0;i<n;i++) for(int c=0;c<ch;c++) in[i*ch+c]=(float)(a[c]*sin(6.283185307*f[c]*i/Fs));
-  opus_int32 la=0; opus_multistream_encoder_ctl(me,OPUS_GET_LOOKAHEAD(&la)); int api=vc_below(&r,2); opus_int16 *s16=(opus_int16*)malloc(2*fs*ch), *o16=(opus_int16*)malloc(2*fs*ch);
-  for(long pos=0;pos+fs<=n;pos+=fs){ int len; if(api){ for(int i=0;i<fs*ch;i++) s16[i]=vc_f2s(in[pos*ch+i]); len=opus_multistream_encode(me,s16,fs,pk,12000); } else len=opus_multistream_encode_float(me,in+pos*ch,fs,pk,12000); if(len<=0){ vc_viol("ms:encode","%d",len); goto out; } int rc; if(api){ rc=opus_multistream_decode(md,pk,len,o16,fs,0); for(int i=0;i<fs*ch;i++) out[pos*ch+i]=o16[i]/32768.f; } else rc=opus_multistream_decode_float(md,pk,len,out+pos*ch,fs,0); if(rc!=fs){ vc_viol("ms:decode","%d",rc); goto out; } }
-  { long skip=Fs/4; vc_count("ms_roundtrips",1); for(int c=0;c<ch;c++){ /* projection of output channel c on each input tone */ double best=0; int bi=-1; double own=0; for(int t=0;t<ch;t++){ double sr=0,si=0; for(long i=skip;i<n-la-8;i++){ double ph=6.283185307*f[t]*i/Fs; double y=out[(i+la)*ch+c]; sr+=y*sin(ph); si+=y*cos(ph); } double amp=2*sqrt(sr*sr+si*si)/(n-la-8-skip); if(amp>best){ best=amp; bi=t; } if(t==c) own=amp; }
-      if(bi!=c){ vc_viol("ms:channel-identity","family %d, %d channels: output channel %d is dominated by the tone of input channel %d (own tone %.4f, other %.4f) Fs=%d",fam,ch,c,bi,own,best,Fs); goto out; }
-      double lv=20*log10(own/a[c]+1e-9); vc_max("ms_level_error_db",fabs(lv)); if(c!=lfe&&fabs(lv)>C04_LEVEL_DB){ vc_viol("ms:channel-level","family %d, %d channels: channel %d comes back at %.2f dB (Fs=%d)",fam,ch,c,lv,Fs); goto out; }
+  vc_rng r; vc_case_rng(&r,5); int err; int Fs=vc_chance(&r,1,2)?48000:VC_PICK(&r,vk_rates); int fq=(int)vc_below(&r,5); int fam= fq<2?1: fq<4?255:3; int ch; if(fam==1) ch=vc_range(&r,1,8); else if(fam==255) ch=vc_range(&r,1,6); else { int o=vc_range(&r,1,3); ch=(o+1)*(o+1)+(vc_chance(&r,1,2)?2:0); }
+  int S,C; unsigned char map[255]; OpusMSEncoder *me=NULL; OpusMSDecoder *md=NULL; OpusProjectionEncoder *pe=NULL; OpusProjectionDecoder *pd=NULL; double G=1.0;   /* G: the projection demixing gain the application applies */
+  if(fam==3){ pe=opus_projection_ambisonics_encoder_create(Fs,ch,3,&S,&C,OPUS_APPLICATION_AUDIO,&err); if(!pe){ vc_viol("ms:create","projection %d channels: %d",ch,err); return; } opus_int32 msz=0,gq=0; opus_projection_encoder_ctl(pe,OPUS_PROJECTION_GET_DEMIXING_MATRIX_SIZE(&msz)); opus_projection_encoder_ctl(pe,OPUS_PROJECTION_GET_DEMIXING_MATRIX_GAIN(&gq)); unsigned char *mt=(unsigned char*)malloc(msz); opus_projection_encoder_ctl(pe,OPUS_PROJECTION_GET_DEMIXING_MATRIX(mt,msz)); pd=opus_projection_decoder_create(Fs,ch,S,C,mt,msz,&err); free(mt); if(!pd){ vc_viol("ms:create","projection decoder %d",err); opus_projection_encoder_destroy(pe); return; } G=pow(10.0,gq/(20.0*256.0)); }
+  else { me=opus_multistream_surround_encoder_create(Fs,ch,fam,&S,&C,map,OPUS_APPLICATION_AUDIO,&err); if(!me){ vc_viol("ms:create","%d",err); return; } md=opus_multistream_decoder_create(Fs,ch,S,C,map,&err); }
+  if(me) opus_multistream_encoder_ctl(me,OPUS_SET_BITRATE(64000*ch)); else opus_projection_encoder_ctl(pe,OPUS_SET_BITRATE(64000*ch));
+  int fs=vk_frame_samples(Fs,vc_range(&r,2,4)); long n=(long)(1.6*Fs)/fs*fs; float *in=(float*)malloc(sizeof(float)*n*ch), *out=(float*)calloc(n*ch,sizeof(float)); unsigned char *pk=(unsigned char*)malloc(40000);
+  /* a distinct tone in each channel, distinct levels (the LFE channel of a surround layout is exempt from the level clause) */
+  double f[38], a[38]; int lfe=(fam==1&&ch>=6)?ch-1:-1; /* Vorbis channel order puts the LFE last for 5.1, 6.1 and 7.1 */ for(int c=0;c<ch;c++){ f[c]=300+(ch>8?70:170)*c+vc_unit(&r)*30; a[c]=0.1+0.04*(c%8); if(c==lfe) f[c]=60; } for(long i=0;i<n;i++) for(int c=0;c<ch;c++) in[i*ch+c]=(float)(a[c]*sin(6.283185307*f[c]*i/Fs));
+  opus_int32 la=0; if(me) opus_multistream_encoder_ctl(me,OPUS_GET_LOOKAHEAD(&la)); else opus_projection_encoder_ctl(pe,OPUS_GET_LOOKAHEAD(&la)); int api=vc_below(&r,3);   /* float, 16-bit, 24-bit entry points on both sides */
+  opus_int16 *s16=(opus_int16*)malloc(2*fs*ch), *o16=(opus_int16*)malloc(2*fs*ch); opus_int32 *s24=(opus_int32*)malloc(4*fs*ch), *o24=(opus_int32*)malloc(4*fs*ch);
+  for(long pos=0;pos+fs<=n;pos+=fs){ int len; const float *x=in+pos*ch; float *y=out+pos*ch;
+    if(api==1){ for(int i=0;i<fs*ch;i++) s16[i]=vc_f2s(x[i]); len= me?opus_multistream_encode(me,s16,fs,pk,40000):opus_projection_encode(pe,s16,fs,pk,40000); }
+    else if(api==2){ for(int i=0;i<fs*ch;i++) s24[i]=(opus_int32)lrintf(x[i]*8388608.f); len= me?opus_multistream_encode24(me,s24,fs,pk,40000):opus_projection_encode24(pe,s24,fs,pk,40000); }
+    else len= me?opus_multistream_encode_float(me,x,fs,pk,40000):opus_projection_encode_float(pe,x,fs,pk,40000);
+    if(len<=0){ vc_viol("ms:encode","%d",len); goto out; } int rc;
+    if(api==1){ rc= md?opus_multistream_decode(md,pk,len,o16,fs,0):opus_projection_decode(pd,pk,len,o16,fs,0); for(int i=0;i<fs*ch;i++) y[i]=o16[i]/32768.f; }
+    else if(api==2){ rc= md?opus_multistream_decode24(md,pk,len,o24,fs,0):opus_projection_decode24(pd,pk,len,o24,fs,0); for(int i=0;i<fs*ch;i++) y[i]=o24[i]/8388608.f; }
+    else rc= md?opus_multistream_decode_float(md,pk,len,y,fs,0):opus_projection_decode_float(pd,pk,len,y,fs,0);
+    if(rc!=fs){ vc_viol("ms:decode","%d",rc); goto out; } }
+  { long skip=Fs/4; vc_count("ms_roundtrips",1); if(fam==3) vc_count("projection_roundtrips",1); for(int c=0;c<ch;c++){ /* projection of output channel c on each input tone */ double best=0; int bi=-1; double own=0; for(int t=0;t<ch;t++){ double sr=0,si=0; for(long i=skip;i<n-la-8;i++){ double ph=6.283185307*f[t]*i/Fs; double y=G*out[(i+la)*ch+c]; sr+=y*sin(ph); si+=y*cos(ph); } double amp=2*sqrt(sr*sr+si*si)/(n-la-8-skip); if(amp>best){ best=amp; bi=t; } if(t==c) own=amp; }
+      if(bi!=c){ vc_viol("ms:channel-identity","family %d, %d channels, sample format %d: output channel %d is dominated by the tone of input channel %d (own tone %.4f, other %.4f) Fs=%d",fam,ch,api,c,bi,own,best,Fs); goto out; }
+      double lv=20*log10(own/a[c]+1e-9); vc_max(fam==3?"projection_level_error_db":"ms_level_error_db",fabs(lv)); if(c!=lfe&&fabs(lv)>C04_LEVEL_DB){ vc_viol("ms:channel-level","family %d, %d channels, sample format %d: channel %d comes back at %.2f dB (Fs=%d)",fam,ch,api,c,lv,Fs); goto out; }
       /* sign: correlation with the own input positive */
       double cc=0; for(long i=skip;i<n-la-8;i++) cc+=(double)out[(i+la)*ch+c]*in[i*ch+c]; if(cc<=0){ vc_viol("ms:channel-sign","family %d, %d channels: channel %d comes back inverted",fam,ch,c); goto out; } vc_count("ms_channels_checked",1); } }
   vc_sig3((uint64_t)fam|((uint64_t)ch<<8),(uint64_t)(Fs/8000),api);
 out:
-  free(in); free(out); free(pk); free(s16); free(o16); opus_multistream_encoder_destroy(me); opus_multistream_decoder_destroy(md);
+  free(in); free(out); free(pk); free(s16); free(o16); free(s24); free(o24); if(me) opus_multistream_encoder_destroy(me); if(md) opus_multistream_decoder_destroy(md); if(pe) opus_projection_encoder_destroy(pe); if(pd) opus_projection_decoder_destroy(pd);
 }
 
 int main(int argc,char **argv){
